@@ -221,7 +221,7 @@ def _attrs(node, out_names):
     if node.get("rechunk_on_load"):
         a["rechunk_on_load"] = True
     if node.get("parallel"):
-        a["parallel"] = True
+        a["parallel"] = node["parallel"] if node["parallel"] == "process" else True
     if node.get("allow_superrun"):
         a["allow_superrun"] = True
     if node.get("max_messages") is not None:
@@ -405,8 +405,16 @@ def build_classes(spec, token, unit=1):
             raise ValueError(op)
         cname = "P_" + name
         _install_mutation_points(body, base)
-        classes.append(type(cname, (base,), body))
+        cls = type(cname, (base,), body)
+        _register_dynamic(token, cls)
+        classes.append(cls)
     return classes
+
+
+def _register_dynamic(token, cls):
+    """Make the class picklable by reference across the simulated process boundary (vf.sched.scheduler)."""
+    from vf.sched import scheduler
+    scheduler.DYNAMIC_CLASSES[(token, cls.__name__)] = cls
 
 
 def _install_mutation_points(body, base):
@@ -466,6 +474,9 @@ def new_runtime(token):
 
 def drop_runtime(token):
     RUNTIME.pop(token, None)
+    from vf.sched import scheduler
+    for k in [k for k in scheduler.DYNAMIC_CLASSES if k[0] == token]:
+        del scheduler.DYNAMIC_CLASSES[k]
 
 
 # ----------------------------------------------------------------------------------------------------
